@@ -55,10 +55,16 @@ fn transport(kind: &str, data: &[u8], n: usize) -> String {
         ],
     };
     match kind {
-        "unixpath" | "unixmode" | "abstract" | "tcp" => {
+        "unixpath" | "unixmode" | "unixstale" | "unixmodestale" | "abstract" | "tcp" => {
+            if kind.ends_with("stale") {
+                // a socket file left behind by an earlier instance that did not clean up (std's listener does not unlink)
+                let p = format!("{}/t-{}-{}.sock", tmpdir(), std::process::id(), n);
+                let _ = std::fs::remove_file(&p);
+                drop(std::os::unix::net::UnixListener::bind(&p));
+            }
             let addr = match kind {
-                "unixpath" => format!("unix:{}/t-{}-{}.sock", tmpdir(), std::process::id(), n),
-                "unixmode" => format!("unix:{}/t-{}-{}.sock;mode=0600", tmpdir(), std::process::id(), n),
+                "unixpath" | "unixstale" => format!("unix:{}/t-{}-{}.sock", tmpdir(), std::process::id(), n),
+                "unixmode" | "unixmodestale" => format!("unix:{}/t-{}-{}.sock;mode=0600", tmpdir(), std::process::id(), n),
                 "abstract" => format!("unix:@vh-addr-{}-{}", std::process::id(), n),
                 _ => {
                     let l = std::net::TcpListener::bind("127.0.0.1:0").unwrap();
